@@ -211,7 +211,12 @@ def build(r, nl, enc):
                 c = "TRANSLATORS: note %d" % r.randrange(1000)
                 d.add("## " + c + nl)
                 attached += 1
-            elif kc < 0.35:
+            elif kc < 0.3 and kind not in ("control-elif", "in-def-body"):
+                # a comment without the tag, directly before the construct (also as the very first node of the
+                # template or of a def body): never a translator comment
+                d.add("## just a remark %d" % r.randrange(1000) + nl)
+                d.untagged = getattr(d, "untagged", 0) + 1
+            elif kc < 0.4:
                 d.add("## TRANSLATORS: far away %d" % r.randrange(1000) + nl)
                 d.add("between" + nl)
                 d.add("still between" + nl)
@@ -252,7 +257,7 @@ def compare(found, d, which, res, rc, text):
         if comment is not None:
             if not any(comment in c for c in has):
                 res.violate("translator-comment-lost-" + which, "%s\nmessage %r lacks translator comment %r (has %r)" % (what, msgs, comment, has), replay_case=rc)
-        elif any("TRANSLATORS" in c for c in has):
+        elif has:
             res.violate("translator-comment-misattached-" + which, "%s\nmessage %r carries translator comments %r although none stands directly before its construct" % (what, msgs, has), replay_case=rc)
     for g in unmatched:
         what = "%s extractor, template\n%s" % (which, text)
@@ -271,6 +276,7 @@ def run_template(r, nl, enc, res):
     res.count("decoys_planted", getattr(d, "decoys", 0))
     res.count("translator_comments_attached", d.attached)
     res.count("translator_comments_detached", d.detached)
+    res.count("untagged_comments_before_messages", getattr(d, "untagged", 0))
     codec = "utf-8" if enc == "ascii" else enc
     # Babel
     try:
